@@ -286,8 +286,27 @@ def _straight_result(body, blk, limit=8):
     return None
 
 
-def return_sites(body, program=None):
-    """All definitions of _0: list of (blk, idx, term, canonical-controls)."""
+def _has_phi(t):
+    return T.contains(t, lambda x: x[0] in ("phi", "loopvar"))
+
+
+def _then_call(t):
+    t = T.strip(t)
+    return t[0] == "call" and t[1].rsplit("::", 1)[-1] in ("then", "then_some") and "bool" in t[1] and len(t[2]) == 2
+
+
+def return_sites(body, program=None, resolve=False):
+    """All definitions of _0: list of (blk, idx, term, canonical-controls).
+
+    With `resolve` a returned value that merges several assignments of a local (`let q = if c {High} else {Low}; Some(q.score())`,
+    a phi in the term) is split into one entry per path to the return, with the value that path assigned and the conditions that
+    path took (only branches the return depends on); `c.then(|| v)` / `c.then_some(v)` is split into `Some(v)` under c and `None` under
+    !c.  The same function written with the value inline yields the same entries."""
+    return [x[:4] for x in return_alternatives(body, program, resolve)]
+
+
+def return_alternatives(body, program=None, resolve=True):
+    """as return_sites, with a fifth element: True when the entry was obtained by splitting (its conditions are the path's own)"""
     from . import q as Q
     S = T.Slicer(body, program)
     out = []
@@ -296,5 +315,61 @@ def return_sites(body, program=None):
             continue
         term = S.def_term(0, b, j, 0)
         conds = Q.canon_conds(program, T.controls(body, S, b)) if program else []
-        out.append((b, j, term, conds))
+        alts = [(term, conds, False)]
+        if resolve and program is not None and body.kind != "Closure" and _has_phi(term) and len(body.blocks) <= 400:
+            pa = _path_alternatives(body, program, S, b, j)
+            if pa:
+                alts = [(t2, c2, True) for (t2, c2) in pa]
+        final = []
+        for (t2, c2, fl) in alts:
+            if resolve and program is not None and _then_call(t2):
+                final.extend((t3, c3, True) for (t3, c3) in _split_then(program, body, T.strip(t2), c2, b))
+            else:
+                final.append((t2, c2, fl))
+        for (t2, c2, fl) in final:
+            if (b, j, t2, c2, fl) not in out:
+                out.append((b, j, t2, c2, fl))
     return out
+
+
+def _path_alternatives(body, program, S, b, j):
+    from . import paths as PA
+    from . import q as Q
+    from . import cfg as C
+    trails, trunc = PA.enumerate_paths(body, 0, 1500, stop={b}, loop_once=False)
+    trails = [tr for tr in trails if tr[-1] == b]
+    if trunc or not trails or len(trails) > 400:
+        return None
+    deciding = {a for (a, s_) in C.transitive_controls(body, b)}
+    blk = body.blocks[b]
+    seen = []
+    for tr in trails:
+        ps = PA.PathSlicer(body, tr, program)
+        ps.at(len(tr) - 1)
+        if j == -1:
+            t = ps.def_term(0, b, j, 0)
+        else:
+            t = ps.rvalue(blk["s"][j]["r"], b, j)
+        cs = [Q._norm_cmp(c) for c in PA.path_conds(program, body, S, tr) if c[-1] in deciding]
+        key = (t, tuple(cs))
+        if key not in seen:
+            seen.append(key)
+    return [(t, list(cs)) for (t, cs) in seen]
+
+
+def _split_then(program, body, t, conds, blk):
+    from . import q as Q
+    c = t[2][0]
+    pol = True
+    while c[0] == "unop" and c[1] == "Not":
+        c, pol = c[2], not pol
+    v = T.strip(t[2][1])
+    if t[1].rsplit("::", 1)[-1] == "then" and v[0] == "agg" and v[1] == "closure" and v[2] in program.bodies:
+        cb = program.bodies[v[2]]
+        rets = return_sites(cb, program, resolve=False)
+        if len(rets) != 1:
+            return [(t, conds)]
+        v = T.expand_upvars(program, cb, rets[0][2], depth=2)
+    yes = list(conds) + [Q._norm_cmp(x) for x in Q.canon_cond(program, c, pol, blk)]
+    no = list(conds) + [Q._norm_cmp(x) for x in Q.canon_cond(program, c, not pol, blk)]
+    return [(("agg", "adt", "core::option::Option", "Some", (v,)), yes), (("agg", "adt", "core::option::Option", "None", ()), no)]
